@@ -497,6 +497,32 @@ impl<K, V, A: Allocator> CaoHashMap<K, V, A> {
     }
 }
 
+#[cfg(feature = "verif-hooks")]
+impl<K, V, A: Allocator> CaoHashMap<K, V, A> {
+    /// raw view of every bucket in storage order: `None` = empty, else (stored hash, key, value)
+    pub fn verif_raw_slots(&self) -> Vec<Option<(u64, &K, &V)>> {
+        (0..self.capacity)
+            .map(|i| {
+                let h = self.hashes()[i];
+                (h != 0).then(|| unsafe {
+                    (
+                        h,
+                        &*self.keys.as_ptr().add(i),
+                        &*self.values.as_ptr().add(i),
+                    )
+                })
+            })
+            .collect()
+    }
+
+    /// the hash the map computes for a key
+    pub fn verif_hash<Q: ?Sized + Hash>(key: &Q) -> u64 {
+        let mut hasher = CaoHasher::default();
+        key.hash(&mut hasher);
+        hasher.finish()
+    }
+}
+
 struct CaoHasher(u64);
 impl Default for CaoHasher {
     fn default() -> Self {
